@@ -36,6 +36,9 @@ const (
 	successNoApp   = "success-no-app"      // 2001 but no application at all
 	successUnknApp = "success-unknown-app" // 2001 but only applications the client does not support
 	disconnect     = "disconnect"
+	// the peer reacts with messages that are not a CEA (a success DWA carrying the CER's identifiers,
+	// an application answer): no reply to the CER, the client goes on as after silence
+	notCEA = "not-a-cea"
 	// 2001, applications only inside Vendor-Specific-Application-Id groups (Vendor-Id first, the
 	// RFC layout) that name an application the client does not know / no application at all
 	successVSAUnknown = "success-vsa-unknown-app"
@@ -68,7 +71,7 @@ type Case struct {
 
 func (c Case) interval() time.Duration { return time.Duration(c.IntervalMs) * time.Millisecond }
 
-func terminal(a string) bool { return a != silence }
+func terminal(a string) bool { return a != silence && a != notCEA }
 
 // expected outcome from the script: index (1-based) of the deciding transmission, success?
 func (c Case) expect() (k int, ok bool) {
@@ -198,6 +201,11 @@ func runOnce(c Case) result {
 		}
 		switch a {
 		case silence:
+		case notCEA:
+			mc.Feed(refcodec.EncodeMessage(refcodec.Header{Version: 1, Code: 280, HopByHop: h.HopByHop, EndToEnd: h.EndToEnd},
+				[]*refcodec.Node{{Code: 268, Flags: 0x40, Payload: refcodec.U32(2001)}, {Code: 264, Flags: 0x40, Payload: []byte("srv.example")},
+					{Code: 296, Flags: 0x40, Payload: []byte("example")}}, false))
+			mc.Feed(appAnswerMsg(900 + tx))
 		case disconnect:
 			mc.FeedEOF()
 		default:
@@ -476,7 +484,7 @@ func genCase(t *rapid.T) Case {
 	}
 	n := rapid.IntRange(0, c.MaxRetransmits+1).Draw(t, "silent-first")
 	for i := 0; i < n; i++ {
-		c.Script = append(c.Script, silence)
+		c.Script = append(c.Script, rapid.SampledFrom([]string{silence, silence, notCEA}).Draw(t, "no-reply"))
 	}
 	c.Script = append(c.Script, rapid.SampledFrom([]string{success, success, success, successPlus, failCode, noResultCode, noOriginHost, successNoApp, successUnknApp, successVSAUnknown, successVSAVendor, disconnect, silence}).Draw(t, "reaction"))
 	k := rapid.IntRange(0, 5).Draw(t, "extras")
@@ -500,6 +508,11 @@ func classify(c Case) (bool, []string) {
 	nt := k > 1 || !ok
 	if k > 1 {
 		cl = append(cl, "retransmitted")
+	}
+	for i := 0; i < k-1 && i < len(c.Script); i++ {
+		if c.Script[i] == notCEA {
+			cl = append(cl, "other-messages-instead-of-a-cea")
+		}
 	}
 	if ok {
 		cl = append(cl, "outcome:success")
@@ -525,7 +538,7 @@ func classify(c Case) (bool, []string) {
 
 var prop = ev.Register(&ev.Prop[Case]{
 	ID: "C12", Name: "handshake",
-	Rule: "client settings (MaxRetransmits 0..4, RetransmitInterval 40..70 ms, identity, configured or endpoint-derived host addresses incl. IPv6, zoned link-local and multi-homed (SCTP style a/b:port) endpoints, advertised auth / acct / vendor-specific applications that the local dictionary supports) x peer script per received transmission {silence, success CEA sharing an advertised application, failing Result-Code, CEA without Result-Code / Origin-Host, success without / with only unknown applications, disconnect}, reacting inside the transport's Write; after a successful handshake 0..5 extras {duplicate success CEA, late failing CEA, malformed CEA, application answers}; non-trivial = a retransmission, a failure outcome, or an extra CEA after success; a mismatch that a scheduling delay could explain must reproduce 3 times",
+	Rule: "client settings (MaxRetransmits 0..4, RetransmitInterval 40..70 ms, identity, configured or endpoint-derived host addresses incl. IPv6, zoned link-local and multi-homed (SCTP style a/b:port) endpoints, advertised auth / acct / vendor-specific applications that the local dictionary supports) x peer script per received transmission {silence, messages that are not a CEA (a success DWA with the CER's identifiers, an application answer), success CEA sharing an advertised application, failing Result-Code, CEA without Result-Code / Origin-Host, success without / with only unknown applications, disconnect}, reacting inside the transport's Write; after a successful handshake 0..5 extras {duplicate success CEA, late failing CEA, malformed CEA, application answers}; non-trivial = a retransmission, a failure outcome, or an extra CEA after success; a mismatch that a scheduling delay could explain must reproduce 3 times",
 	Gen:  genCase, Run: runCase, Classify: classify, Attempts: 2,
 })
 
